@@ -220,6 +220,16 @@ main(void)
 			echs_instant_t r = dt_strp(cp, &on, n);
 			printf("%016" PRIx64 " %ld\n", r.u, on ? (long)(on - cp) : -1L);
 			free(cp);
+		} else if (!strcmp(cmd, "dtp0")) {
+			/* len == 0 entry (UNTIL=, --from): NUL terminated string */
+			while (*p == ' ') p++;
+			char *on = NULL;
+			size_t n = strlen(p);
+			char *cp = malloc(n + 1);
+			memcpy(cp, p, n + 1);
+			echs_instant_t r = dt_strp(cp, &on, 0U);
+			printf("%016" PRIx64 " %ld\n", r.u, on ? (long)(on - cp) : -1L);
+			free(cp);
 		} else if (!strcmp(cmd, "dtf") || !strcmp(cmd, "dtfi")) {
 			echs_instant_t a = rdi(&p);
 			char buf[64];
